@@ -29,6 +29,12 @@ DRIVER = 'drv_c15'
 DRIVER_ROOT = 'Drv.C15'
 GEN = ['Args', 'LibFns']
 THEOREMS = [
+    'C15.sig_table', 'C15.fail_table', 'C15.raw_table',
+    'C15.bodies_shape', 'C15.lib_frame', 'C15.lib_frame_kind', 'C15.lib_length', 'C15.lib_fresh',
+    'C15.lib_fail_unchanged', 'C15.lib_invalid_fails', 'C15.validate_num', 'C15.lib_spec',
+    'C15.history_refines', 'C15.history_env', 'C15.history_frame', 'C15.alias_same',
+    'C15.dictGet_dictSet', 'C15.dictGet_dictDel', 'C15.dictSet_keys',
+    'C15.regexEscape_literal', 'C15.regexEscape_call', 'C15.urlEncode_reversible', 'C15.urlEncode_call', 'C15.quoteByte_ascii',
 ]
 ASSUMPTIONS = [
     'CPython str methods find/rfind/split/replace/strip/startswith/endswith and list/dict primitives behave as modelled over code points '
@@ -747,10 +753,10 @@ def check_history(spec, model_steps=None, run=None):
             info['fails'] += 1
         renv.append(res)
         want_state = canon_state(renv)
+        found = []
         # 1. result and complete state (deep, aliasing by identity) against the reference
         if ist['state'] != want_state:
-            witnesses.append(('reference-state', k, {'call': c, 'kind': kind, 'state': want_state}, ist['state']))
-            break
+            found.append(('reference-state', k, {'call': c, 'kind': kind, 'state': want_state}, ist['state']))
         # 2. frame: only the container passed first to a mutator may change; a failing call changes nothing
         mutator = FUNCS[fn][2]
         first = c['args'][0] if c['args'] else None
@@ -759,22 +765,18 @@ def check_history(spec, model_steps=None, run=None):
             target = prev['env_ids'][first['var']]
         changed = [i for i, sh in prev['objs'].items() if i in ist['objs'] and ist['objs'][i] != sh]
         if kind == 'fail' and changed:
-            witnesses.append(('failure-leaves-arguments-unchanged', k, {'call': c, 'changed': 0}, {'changed': len(changed)}))
-            break
+            found.append(('failure-leaves-arguments-unchanged', k, {'call': c, 'changed': 0}, {'changed': len(changed)}))
         if [i for i in changed if i != target]:
-            witnesses.append(('frame', k, {'call': c, 'changed': 'at most the first argument'},
-                              {'changed': len(changed), 'first-argument-among-them': target in changed}))
-            break
+            found.append(('frame', k, {'call': c, 'changed': 'at most the first argument'},
+                          {'changed': len(changed), 'first-argument-among-them': target in changed}))
         if ist['env_ids'][:len(prev['env_ids'])] != prev['env_ids']:
-            witnesses.append(('identity-kept', k, {'call': c}, 'a variable was rebound'))
-            break
+            found.append(('identity-kept', k, {'call': c}, 'a variable was rebound'))
         # 3. freshness: a returned copy / slice / new container is not a container that existed before the call
-        if FUNCS[fn][3] and kind == 'ok':
-            if ist['res_id'] is None or ist['res_id'] in seen:
-                witnesses.append(('fresh-result', k, {'call': c, 'fresh': True}, {'fresh': False}))
-                break
+        if FUNCS[fn][3] and kind == 'ok' and (ist['res_id'] is None or ist['res_id'] in seen):
+            found.append(('fresh-result', k, {'call': c, 'fresh': True}, {'fresh': False}))
         seen.update(ist['objs'])
         prev = ist
+        witnesses.extend(found)
         # 4. the model
         if model_steps is not None:
             ms = model_steps[k] if k < len(model_steps) else {'bad': 'missing step'}
@@ -793,6 +795,8 @@ def check_history(spec, model_steps=None, run=None):
             if mstate != ist['state'] or (ms['r'] != 'unmodelled' and kind != 'skip' and ms['r'] != ikind):
                 disagreements.append((k, {'kind': ikind, 'state': ist['state']}, {'kind': ms['r'], 'state': mstate}))
                 break
+        if found:
+            break
     return witnesses, disagreements, info
 
 
@@ -852,7 +856,7 @@ def rand_pool(rng):
 class Gen:
     """Online generator: keeps a reference pool to know lengths, keys and what would create a cycle."""
 
-    def __init__(self, rng, spec, p_bad=0.12):
+    def __init__(self, rng, spec, p_bad=0.08):
         self.rng = rng
         self.spec = spec
         self.p_bad = p_bad
@@ -997,7 +1001,7 @@ class Gen:
         return call
 
 
-def gen_history(rng, maxlen=30, p_bad=0.12):
+def gen_history(rng, maxlen=30, p_bad=0.08):
     spec = rand_pool(rng)
     g = Gen(rng, spec, p_bad)
     calls = []
@@ -1088,11 +1092,11 @@ def run_batch(ctx, stream, st, specs, tags_of):
 
 def stream_lib(ctx):
     st = ctx.stream('lib', 'histories of <=30 library calls (array*/object*/string*/regexEscape/urlEncode*) issued from a script on a pool of '
-                           'aliased, nested containers; indices -2..len+2 as float literals, ~12% wrong-typed / missing / surplus arguments; '
+                           'aliased, nested containers; indices -2..len+2 as float literals, ~8% of the arguments wrong-typed, ~8% of the calls with a missing / surplus argument; '
                            'after every call: result, complete state with aliasing, frame, freshness against reference and model; '
                            'non-trivial = at least 3 calls of which one mutates a container that has an alias')
     rng = ctx.rng('lib')
-    specs = load_corpus() + [gen_history(rng) for _ in range(ctx.scale(700, 24000))]
+    specs = load_corpus() + [gen_history(rng) for _ in range(ctx.scale(2500, 30000))]
 
     def tags_of(spec, info):
         tags = [f'len{min(len(spec["calls"]) // 5 * 5, 30)}']
@@ -1132,7 +1136,7 @@ def text_oracles(ctx):
                             'non-trivial = the string contains a character that has to be escaped')
     rng = ctx.rng('text')
     strings = ['', '.', 'a.c', '\\', '\\d', '[a]', 'a|b', '(', '^$', '\n', ' ', '#', 'é', 'a b&c=d/e?f', '%41', '100%', "it's", '\U0001f600']
-    strings += [rand_string(rng, WIDE, 10) for _ in range(ctx.scale(1500, 40000))]
+    strings += [rand_string(rng, WIDE, 10) for _ in range(ctx.scale(3000, 60000))]
     script = impl['parser'].parse_script('e = regexEscape(s)\nu = urlEncode(s)\nc = urlEncodeComponent(s)')
     reqs = []
     for s in strings:
@@ -1243,5 +1247,18 @@ def replay(witness):
     return bool(text_failures(inp['s'], [glob.get('e'), glob.get('u'), glob.get('c')], fw.rng_for(0, 'C15', 'replay')))
 
 
-LEVEL_TEXT = ''
-LEVEL_NOTE = ''
+LEVEL_TEXT = ('Theorems over a heap model (arrays/objects as shared cells) for ALL heaps, argument lists and call histories: frame (only the '
+              'first argument of the nine mutators can change, everything else keeps contents), freshness (copies/slices/new containers '
+              'are new cells), failing calls return the documented failure value and leave the heap unchanged, the Python-shaped bodies '
+              '(float indices, int() truncation, negative wrap-around, clamping slices, range loops, find/rfind bounds) equal reference '
+              'operations on natural indices (lib_spec), lifted to histories by induction; re.escape output is a literal-atom pattern for '
+              'exactly its argument; percent-decoding urllib.parse.quote output gives back the UTF-8 bytes. Argument models, failure '
+              'values, URL safe sets, re.escape specials are regenerated from the working tree on every run and must equal the '
+              'documented tables (decide). The model is tied to library.py by histories executed through scripts and checked against '
+              'an independent pure-Python reference after every call.')
+LEVEL_NOTE = ('Trusted: Lean kernel; extract.py; the correspondence harness and its reference Ref. Modelled not verified: CPython str/list/dict '
+              'primitives, re.escape, urllib.parse.quote (tables re-extracted). Unmodelled (skipped, counted in evidence): match-function '
+              'form of arrayIndexOf/arrayLastIndexOf, arrayJoin over non-integral numbers/datetimes/containers, stringLower/Upper on '
+              'non-ASCII, surrogate code points, cyclic containers (F18), arraySort, stringNew. For string functions whose body already is '
+              'a plain code-point operation (startsWith, endsWith, split, replace, trim, lower/upper) the reference IS the modelled '
+              'primitive: their contract is correspondence-strength (lib stream + Python reference), not a theorem.')
